@@ -1,17 +1,14 @@
-(** C07 — property theorems only.  [Inv_flags] is the part of Inv_tree proved for the model, for EVERY operation of both
-    trees (hdr / body / set / inv / reval / rm / rmpl; ALT with empty payloads and the PoW tree):
-    proper tree, heights follow parents, failed parent => FAILED_CHILD, live blocks >= VALID_TREE; together with
-    [tip_ok] it gives: the best chain root..tip runs through non-failed blocks only.
-    The tips conjunct [Tips_ok] (tips = usable blocks without usable child) is proved for set / inv / reval / rm of
-    both trees and hdr (block not in the store) / body / rmpl of the ALT tree.
-    _partial, exact missing pieces: (1) Tips_ok for re-adding the header of a REMOVED block and for the PoW
-    acceptBlockHeader - both need the model invariant "a removed block is at VALID_UNKNOWN and has only removed
-    children" (S3 of harness/invariants.hpp); (2) the conjuncts "ACTIVE <=> on the best chain, appliedBlockCount =
-    |chain|" and "connected => ancestors connected". These are checked on the implementation after every step by
-    harness/invariants.hpp (T1, S3, C1, C2, V2). *)
+(** C07 — property theorems only.  [Inv_tree] is the part of the invariant proved for the model, for EVERY operation of
+    both trees (hdr / body / set / inv / reval / rm / rmpl; ALT with empty payloads and the PoW tree), without _partial:
+      Inv_flags : proper tree, heights follow parents, failed parent => FAILED_CHILD, live blocks >= VALID_TREE;
+      S3_ok     : a removed block is at VALID_UNKNOWN, carries no ACTIVE / HAS_PAYLOADS and has only removed children;
+      Tips_ok   : tips = { b | canBeATip b and no child canBeATip };
+    together with [tip_ok]: the best chain root..tip runs through non-failed blocks only.
+    Not proved in the model (checked on the implementation after every step by harness/invariants.hpp C1, C2, V2):
+    "ACTIVE <=> on the best chain", "appliedBlockCount = |chain|", "connected => ancestors connected". *)
 From Coq Require Import ZArith NArith List Bool.
 From VB Require Import Tree.TreeDefs Tree.TreeInv Tree.TreePass Tree.TreeProofs Tree.TreeExact Tree.TreeMono
-  Tree.TreeSteps Tree.TreeChain Tree.TreeTips Tree.TreeTipsOps Tree.TreeTipsUp Tree.TreeTipsAlt.
+  Tree.TreeSteps Tree.TreeChain Tree.TreeTips Tree.TreeTipsOps Tree.TreeTipsUp Tree.TreeTipsAlt Tree.TreeDeleted Tree.TreeTipsAll.
 Import ListNotations.
 
 Theorem C07_init_alt : forall h, Inv_flags (alt_init h) /\ tip_ok (alt_init h).
@@ -22,26 +19,30 @@ Theorem C07_init_pow : forall h w, Inv_flags (pow_init h w) /\ tip_ok (pow_init 
 Proof. exact pow_init_good. Qed.
 Print Assumptions C07_init_pow.
 
-Theorem C07_step_partial : forall s o, Inv_flags s /\ tip_ok s -> Inv_flags (step s o) /\ tip_ok (step s o).
+Theorem C07_step : forall s o, Inv_flags s /\ tip_ok s -> Inv_flags (step s o) /\ tip_ok (step s o).
 Proof. exact step_good. Qed.
-Print Assumptions C07_step_partial.
+Print Assumptions C07_step.
 
-Theorem C07_run_partial : forall ops s, Inv_flags s /\ tip_ok s -> Inv_flags (run s ops) /\ tip_ok (run s ops).
+Theorem C07_run : forall ops s, Inv_flags s /\ tip_ok s -> Inv_flags (run s ops) /\ tip_ok (run s ops).
 Proof. exact run_good. Qed.
-Print Assumptions C07_run_partial.
+Print Assumptions C07_run.
 
-(* the tips conjunct: tips = { b | canBeATip b and no child canBeATip } *)
-Theorem C07_init_tips_alt : forall h, Tips_ok (alt_init h).
-Proof. exact init_tips_ok_alt. Qed.
-Print Assumptions C07_init_tips_alt.
+(* Inv_tree = Inv_flags + S3 + tips conjunct: initial states, every step, every op list *)
+Theorem C07_Inv_tree_init_alt : forall h, Inv_tree (alt_init h).
+Proof. exact Inv_tree_init_alt. Qed.
+Print Assumptions C07_Inv_tree_init_alt.
 
-Theorem C07_init_tips_pow : forall h w, Tips_ok (pow_init h w).
-Proof. exact init_tips_ok_pow. Qed.
-Print Assumptions C07_init_tips_pow.
+Theorem C07_Inv_tree_init_pow : forall h w, Inv_tree (pow_init h w).
+Proof. exact Inv_tree_init_pow. Qed.
+Print Assumptions C07_Inv_tree_init_pow.
 
-Theorem C07_step_tips_partial : forall s o, Inv_flags s -> Tips_ok s -> tips_op s o -> Tips_ok (step s o).
-Proof. exact step_tips_partial. Qed.
-Print Assumptions C07_step_tips_partial.
+Theorem C07_Inv_tree_step : forall s o, Inv_tree s -> Inv_tree (step s o).
+Proof. exact Inv_tree_step. Qed.
+Print Assumptions C07_Inv_tree_step.
+
+Theorem C07_Inv_tree_run : forall ops s, Inv_tree s -> Inv_tree (run s ops).
+Proof. exact Inv_tree_run. Qed.
+Print Assumptions C07_Inv_tree_run.
 
 (* a block is valid only if its parent is not failed; every child of a failed block is failed *)
 Theorem C07_valid_parent_not_failed :
